@@ -23,6 +23,7 @@
    start-up) and Proofs/LambdaHist.v (history invariant). *)
 From Coq Require Import List NArith.
 Import ListNotations.
+From GS Require Model.Forwarder Proofs.LambdaForwarder.
 From GS Require Import Base.LTS Model.Lambda Proofs.Lambda Proofs.LambdaHist.
 
 (* Whenever the extension asks for invocation n+1 (n >= 1), the flush triggered by the
@@ -85,3 +86,82 @@ Theorem C20_init_error :
      (mgr s = MWindow /\ step s InitError <> None /\ step s H_Start = None)).
 Proof. exact init_error_thm. Qed.
 Print Assumptions C20_init_error.
+
+(* ------------------------------------------------------------------------------------------
+   C20 x C15.  The forwarder actor above notifies exactly once per flush; that was an assumption
+   about pkg/statsd/handler_http_forwarder_v2.go.  Model/Forwarder.v (C15) models that handler itself:
+   [Forwarder.hstep cm mr dyn utf8ok] with [dyn] = the effective dynamic-header names.  The theorems
+   below (definitions and proofs: Proofs/LambdaForwarder.v) tie the two.
+
+     LF.fwd_step            the forwarder actor cut out of [step]: the job table and the id counter
+     LF.project org ...     hstep labels -> forwarder labels: SinkRecv = F_Take of the next job id (origin
+                            [org id]); a request's Construct true = F_PostStart, Attempt Failed =
+                            F_AttemptFail, Backoff = F_Reattempt, Attempt Ok2xx / Stop / Construct false =
+                            F_PostEnd Sent / Dropped / Invalid; PartSkip and Release of a flush request =
+                            F_Notify; LoopSpawn, MergeSplit, PartPost and the nop's Release are silent
+     LF.cstep cm mr dyn ..  the composed system: [step] for every label that is not a forwarder label, the
+                            handler instead of the forwarder actor (SinkRecv = the rendezvous on the sink,
+                            every notifyFlush = a send on the capacity-1 channel)
+   Context cancellation (ReqStep _ CtxDone) is outside C20 and excluded. *)
+Module LF := GS.Proofs.LambdaForwarder.
+
+(* [LF.fwd_step] is the forwarder component of the four-actor LTS. *)
+Theorem C20_forwarder_actor_is_step :
+  forall s l s',
+    LF.is_fwd l = true -> step s l = Some s' -> LF.fwd_step (LF.fview s) l = Some (LF.fview s').
+Proof. exact LF.fwd_step_actor. Qed.
+Print Assumptions C20_forwarder_actor_is_step.
+
+(* Without dynamic headers every run of C15's handler projects to a run of that actor, take for take
+   and notification for notification; once the handler is at rest there is exactly one F_Notify per
+   F_Take (in the actor F_Notify j is enabled only after job j's delivery attempt has finished). *)
+Theorem C20_forwarder_actor_refines :
+  forall (org : nat -> origin) (cm mr : nat) (utf8ok : list N -> bool)
+         (ls : list GS.Model.Forwarder.hlabel) (hs : GS.Model.Forwarder.hstate),
+    (forall k, org k <> ONop) ->
+    run (GS.Model.Forwarder.hstep cm mr [] utf8ok) (GS.Model.Forwarder.hinit cm mr) ls = Some hs ->
+    (forall l, In l ls -> LF.is_ctxdone l = false) ->
+    exists out qm fs,
+      LF.project org cm mr utf8ok (GS.Model.Forwarder.hinit cm mr) [0] ls = Some (out, hs, qm)
+      /\ run LF.fwd_step LF.finit out = Some fs
+      /\ LF.cnt LF.is_take out = length (GS.Model.Forwarder.received hs)
+      /\ LF.cnt LF.is_notify out = GS.Model.Forwarder.notified hs
+      /\ (GS.Model.Forwarder.at_rest hs = true -> LF.cnt LF.is_notify out = LF.cnt LF.is_take out).
+Proof. exact LF.forwarder_actor_refines_thm. Qed.
+Print Assumptions C20_forwarder_actor_refines.
+
+(* Hence the composed system without dynamic headers refines the four-actor LTS: every execution
+   projects (the other actors' labels unchanged) to an execution [out] of [step] ending in the same
+   state up to the job table - so the five theorems above hold of [out], i.e. of the extension with
+   the forwarder as C15 models it. *)
+Theorem C20_composed_refines :
+  forall (cm mr : nat) (utf8ok : list N -> bool) (tagkey : dp -> list N) (ls : list LF.clabel) (s : LF.cstate),
+    run (LF.cstep cm mr [] utf8ok tagkey) LF.cinit ls = Some s ->
+    (forall l, In l ls -> LF.is_cctxdone l = false) ->
+    exists out qm sA,
+      LF.cproject cm mr utf8ok tagkey LF.cinit [] ls = Some (out, s, qm)
+      /\ run step init out = Some sA
+      /\ set_jobs [] (set_next_id 0 sA) = set_jobs [] (set_next_id 0 (LF.c_l s)).
+Proof. exact LF.composed_refines_thm. Qed.
+Print Assumptions C20_composed_refines.
+
+(* The boundary (README: dynamic-headers are not supported in Lambda mode; cmd/lambda-extension/
+   main.go:105 sets the key "dynamic-header", which nothing reads).  With dynamic-headers = ["r"]:
+   (a) [LF.run_a]: the empty initial flush splits into zero parts; the handler is at rest having
+       notified nobody, and no continuation ever contains a GET /next;
+   (b) [LF.run_b]: an initial flush with two header values is notified twice; the second token lets
+       GET /next #2 go out while invocation 1 is running (no R_Done 1, datapoint 3 accepted and in no
+       flush) - the state C20_next_after_delivery excludes. *)
+Theorem C20_dynamic_headers_refuted :
+  (exists s hs, LF.final LF.run_a = Some s /\ LF.c_h s = Some hs
+     /\ nexts (LF.c_l s) = 0 /\ length (GS.Model.Forwarder.received hs) = 1
+     /\ GS.Model.Forwarder.notified hs = 0 /\ GS.Model.Forwarder.at_rest hs = true
+     /\ forall ls s', run (LF.cstep 1 4 LF.dynr LF.ok8 LF.tagk) s ls = Some s' ->
+                      forall k, ~ In (LF.CL (H_Next k)) ls)
+  /\
+  (exists s hs, LF.final LF.run_b = Some s /\ LF.c_h s = Some hs
+     /\ In (LF.CL (H_Next 2)) LF.run_b /\ ~ In (LF.CL (R_Done 1)) LF.run_b
+     /\ nexts (LF.c_l s) = 2 /\ rt (LF.c_l s) = RRunning 1 /\ pending (LF.c_l s) = [3%N]
+     /\ length (GS.Model.Forwarder.received hs) = 1 /\ GS.Model.Forwarder.notified hs = 2).
+Proof. exact LF.dynamic_headers_refuted_thm. Qed.
+Print Assumptions C20_dynamic_headers_refuted.
